@@ -19,6 +19,17 @@ _PLAIN_ALPHA = "abcdefghijklmnopqrstuvwxyzABCDEXYZ0123456789_-"
 _EXT = ["", "", ".txt", ".mov", ".r3d", ".xml", ".mhl", ".dpx", ".jpg"]
 
 
+TRICKY_NAMES = [
+    # not in Unicode normal form C (decomposed accents, singletons that NFC rewrites)
+    "cafe\u0301.txt", "Cafe\u0301", "A\u030angstrom", "\u212bngstrom.mov", "\u1e9b\u0323", "o\u0302\u0323", "\u2126hm", "\uf900", "e\u0301e\u0301",
+    # the same names composed (siblings that differ in normal form only)
+    "caf\u00e9.txt", "Caf\u00e9",
+    # characters special to printf-style / strftime formatting, glob, shells and option parsers
+    "100% final", "take 100%.mov", "%s", "%d%d", "50%%", "reel%d", "%(x)s", "{0}", "{name}", "Reel[A001]", "card[2]", "-v", "--", "-0",
+    "my notes.txt", "Camera Reports", "a  b", "tab\u2003wide",
+]
+
+
 def plain_names():
     return st.builds(lambda s, e: s + e, st.text(_PLAIN_ALPHA, min_size=1, max_size=7), st.sampled_from(_EXT))
 
@@ -40,7 +51,7 @@ def names(kind="full"):
     if kind == "plain":
         base = plain_names()
     else:
-        base = st.one_of(plain_names(), plain_names(), st.sampled_from(_SPECIAL_NAMES), unicode_names())
+        base = st.one_of(plain_names(), plain_names(), st.sampled_from(_SPECIAL_NAMES), unicode_names(), st.sampled_from(TRICKY_NAMES))
     return base.filter(lambda n: n not in RESERVED and len(n.encode("utf-8")) <= 60 )
 
 
